@@ -14,6 +14,8 @@
 //	        dkv.compact.done); compaction regime through the tunable dkv.maxSizeAmpPct
 //	Wm      watermark t to operator o: the timers handed to the handler are compared
 //	Ckpt    barrier to the operators in ack order perm: real OperatorCheckpoints
+//	Resume  the job goes on with the same operators: the retention round jobs.Job runs when a checkpoint completed
+//	        (UpdateRetainedCheckpoints([that checkpoint]) to every operator)
 //	Deploy  n new operators (new ids, hence new DKV directories) through jobs.Assembly.Deploy
 //	Finish  every remaining timer is fired, the operators checkpoint once more and that checkpoint is
 //	        restored once more (same operator count) and read back
@@ -695,6 +697,18 @@ func replay(bi int, beh []mbt.Step, in *mbt.Input, res *mbt.Result) {
 				order = append(order, p-1)
 			}
 			r.checkpoint(si, order)
+		case "Resume":
+			// what jobs.Job does when a checkpoint completes: the completed checkpoint is the only retained one
+			// (Assembly.UpdateRetainedCheckpoints; the job ignores the operators' answers)
+			for _, nd := range r.cur.nodes {
+				err := withTimeout("retention", func() error {
+					return nd.op.HandleRemoveCheckpoints(context.Background(), &workerpb.UpdateRetainedCheckpointsRequest{CheckpointIds: []uint64{r.ckptID}})
+				})
+				if err != nil {
+					res.Count("retention_errors", 1)
+				}
+			}
+			r.readBack(si, exp, "after the retention round of checkpoint "+strconv.FormatUint(r.ckptID, 10))
 		case "Deploy":
 			if !r.deploy(si, st.Int("n"), st.Str("reg"), st) {
 				break
